@@ -208,9 +208,14 @@ func verifC08_step() {
 	_, nClose, _, _ := vCloseFrames(t.out)
 	if lr.n == 0 {
 		vReach("C08.step.exhausted")
-		vAssert(err != nil, "C08.step.exhausted-is-error")
-		first, _, _, _ := vCloseFrames(t.out)
-		if nClose == 1 && len(first) >= 2 {
+		// limit+1 bytes are out: the message may never be reported complete; the failure may surface now or on the next read
+		vAssert(err != errEOFBare, "C08.step.exhausted-never-reported-complete")
+		if err == nil {
+			n2, err2 := lr.Read(p)
+			vAssert(vAnd(n2 == 0, vAnd(err2 != nil, err2 != errEOFBare)), "C08.step.exhausted-next-read-fails")
+		}
+		first, nClose2, _, _ := vCloseFrames(t.out)
+		if nClose2 == 1 && len(first) >= 2 {
 			vAssert(int(first[0])<<8|int(first[1]) == 1009, "C08.step.close-1009")
 		} else {
 			vAssert(false, "C08.step.close-1009")
